@@ -72,7 +72,7 @@ class Report:
         for o in self.obligations:
             if o["status"] == "discharged":
                 continue
-            k = "%s:%s" % (o["rule"], o["key"])
+            k = ("%s:%s" % (o["rule"], o["key"])).replace(" ", "_")
             o["fullkey"] = k
             if k in seen_keys:
                 continue
